@@ -24,6 +24,9 @@ CATALOGS = {
     'names': dict(integrations=['int1', 'int2']),
     'dicts': dict(integrations=[{'name': 'int1', 'type': 'data'}, {'name': 'int2', 'type': 'data'}], default_namespace='mindsdb'),
     'default_int1': dict(integrations=['int1', 'int2'], default_namespace='int1'),
+    # a project that owns models named like tables (and like schema.table paths) of the integration
+    'colliding_models': dict(integrations=['int1', 'int2', {'name': 'sch', 'type': 'project'}, {'name': 'mindsdb', 'type': 'project'}], default_namespace='mindsdb',
+                             predictor_metadata=[dict(name='t1', integration_name='sch'), dict(name='t3', integration_name='sch'), dict(name='t1', integration_name='mindsdb')]),
 }
 
 EXTRA = [
@@ -56,6 +59,11 @@ EXTRA = [
     ('cte_upper_in_subquery', 'WITH Recent AS (SELECT id FROM int1.t3) SELECT id FROM int1.t1 WHERE id IN (SELECT id FROM Recent)'),
     ('cte_two_mixed_case', 'WITH a1 AS (SELECT id FROM int1.t1), B2 AS (SELECT id FROM int1.t3) SELECT a1.id FROM a1 JOIN B2 ON a1.id = B2.id'),
     ('cte_lower_in_subquery', 'WITH recent AS (SELECT id FROM int1.t3) SELECT id FROM int1.t1 WHERE id IN (SELECT id FROM recent)'),
+    # schema-qualified tables inside the integration (the last two parts may coincide with project.model of the catalog)
+    ('three_part_where', 'SELECT id FROM int1.sch.t1 WHERE a = 1'),
+    ('three_part_group', 'SELECT a, count(*) AS n FROM int1.sch.t1 GROUP BY a'),
+    ('three_part_in_subquery', 'SELECT id FROM int1.sch.t3 WHERE id IN (SELECT id FROM int1.sch.t1)'),
+    ('three_part_join', 'SELECT t1.id FROM int1.sch.t1 JOIN int1.sch.t3 ON t1.id = t3.id'),
     ('alias_upper', 'SELECT T.id FROM int1.t1 AS T WHERE T.a = 1'),
     ('nested_alias_upper', 'SELECT S.id FROM (SELECT id FROM int1.t1) AS S'),
     ('join_aliases_upper', 'SELECT A.id, B.c FROM int1.t1 AS A JOIN int1.t3 AS B ON A.id = B.id'),
